@@ -14,6 +14,7 @@ from ..ir import load_program
 from ..cfg import cfg_of
 from ..flow import Paths
 from .. import tokauto, product
+from ..frontend import AnalysisBroken
 from ..tokrules import F_STRICT, F_UTF8
 
 TIGHT = {"string", "object_field", "comment", "comment_eol", "number"}
